@@ -18,7 +18,8 @@ RULE = ("cases: nn op/layer/loss (functional and module forms) x full geometry d
         "models (synverif/nnops.py, ref_conv.py) + accept/reject protocol; plus 'same'/'valid' padding, "
         "no-window rejection, BCE at the clamp, and an enumerated output-size grid.  non-trivial: geometry not "
         "all-default / reduction != mean / eval with running statistics / rank != 2 / module form; distinct by "
-        "hash of the whole case")
+        "hash of the whole case"
+        " Also: memory layouts, magnitudes, batch-norm data far from its spread (float64), rank-5 batch-norm input, long batches with narrow label dtypes, softmax/cross-entropy rows at far-apart levels, Neuron form.")
 ASSUMPTIONS = ["reference models transcribe the PyTorch documentation formulas (cross-correlation, -inf padded "
                "max-pool, zero-padded average counted in the divisor, channel-major unfold rows, scatter-add fold, "
                "biased batch variance / running statistics)",
